@@ -236,6 +236,11 @@ def correspond(ctx):
             plain = Lark(G.text, parser='lalr', keep_all_tokens=ka, maybe_placeholders=mp)
         except LarkError:
             continue
+        except Exception as ex:
+            ctx.violation('embedded-construct', {'grammar': G.text, 'text': '', 'keep_all_tokens': ka, 'maybe_placeholders': mp,
+                                                 'base': 'Transformer', 'variant': 'plain', 'rules': [], 'toks': [], 'choices': [],
+                                                 'construct_error': repr(ex)[:200]}, True, 'constructing the LALR parser raised %r' % (ex,))
+            continue
         names = set()
         for r in G.rules:
             base = r.get('tsrc') or r['name']
@@ -258,6 +263,11 @@ def correspond(ctx):
             try:
                 tree = plain.parse(text)
             except LarkError:
+                continue
+            except Exception as ex:
+                ctx.violation('embedded-parse', {'grammar': G.text, 'text': text, 'keep_all_tokens': ka, 'maybe_placeholders': mp,
+                                                 'base': 'Transformer', 'variant': 'plain', 'rules': [], 'toks': [], 'choices': [],
+                                                 'construct_error': repr(ex)[:200]}, True, 'parsing raised %r' % (ex,))
                 continue
             rules = sorted(n for n in names if rng.random() < 0.6)
             toks = [k for k in termnames if rng.random() < 0.4 and not k.startswith('__')]
@@ -339,8 +349,22 @@ def embedded_vs_posthoc(w, plain=None, tree=None):
 
 def replay(ctx, case):
     w = case['witness']
+    if 'construct_error' in w:
+        from lark import Lark
+        from lark.exceptions import LarkError
+        try:
+            Lark(w['grammar'], parser='lalr', keep_all_tokens=w['keep_all_tokens'],
+                 maybe_placeholders=w['maybe_placeholders']).parse(w['text'])
+        except LarkError:
+            return False
+        except Exception:
+            return True
+        return False
     if 'grammar' in w:
-        return embedded_vs_posthoc(w)[0] is not None
+        try:
+            return embedded_vs_posthoc(w)[0] is not None
+        except Exception:
+            return True
     if 'tree' in w:
         t = _tup(w['tree'])
         obs = [run_variant(b, w['rules'], w['toks'], w['variant'], w['choices'] + [0] * 99, t) for b in BASES]
